@@ -185,7 +185,7 @@ def depot_sides(ctx, rid):
                        "at %s the %s set is edited under the %s depot" % (c.line(), "spawn" if side == 0 else "despawn", "end" if side == 0 else "start"),
                        loc=c.line())
     o = ctx.ob("%s.depot-side-sites" % rid, "T8", SCHEDULE, "edits of the spawn/despawn sets are recognised (floor 8)")
-    ctx.decide(o, n >= 8, "%d sites" % n, "only %d sites recognised" % n)
+    ctx.floor(o, n, 8, "spawn/despawn set edits")
     # readers
     key = S("number_of_vehicles_of_same_type_spawned_at_custom_usage")
     o, fd = ctx.require_fn("%s.spawn-count-reads-spawn-set" % rid, "T1", key, "the number of vehicles spawned at a depot is the size of the spawn set (component 0)")
